@@ -135,14 +135,82 @@ Qed.
 Lemma mark_member_key m s : mkey (mark_member m s) = mkey m.
 Proof. reflexivity. Qed.
 
-Lemma merge_member_client c s m : merge_member c s = OK m -> m = c /\ m_depr c = m_depr s /\ m_synth c = m_synth s.
+(* every opaque component is the client's *)
+Definition all_client (t : table) : bool := forallb (fun p => act_eqb (snd p) AClient) t.
+
+Lemma merge_rest_all_client tbl c s : all_client tbl = true -> merge_rest tbl c s = OK c.
 Proof.
-  unfold merge_member, merge_eq, from_client. destruct c as [n d a dp sy inv rest], s as [n' d' a' dp' sy' inv' rest']. cbn.
+  revert tbl s. induction c as [|x c IH]; intros tbl s H; cbn [merge_rest]; [reflexivity|].
+  assert (Ha : match tbl with (_, a) :: _ => a | [] => AClient end = AClient).
+  { destruct tbl as [|[f a] tbl]; [reflexivity|]. cbn [all_client forallb snd] in H. apply andb_true_iff in H.
+    destruct a; cbn in H; try (destruct H; discriminate). reflexivity. }
+  rewrite Ha. cbn [apply_scalar obind].
+  rewrite IH; [reflexivity|]. destruct tbl as [|[f a] tbl]; [reflexivity|]. cbn [tl]. cbn [all_client forallb] in H.
+  apply andb_true_iff in H. exact (proj2 H).
+Qed.
+
+(* the action of row i (a table shorter than the list: the client's value) *)
+Definition row_act (tbl : table) (i : nat) : act :=
+  match nth_error tbl i with Some (_, a) => a | None => AClient end.
+
+Lemma row_act_tl tbl i : row_act (tl tbl) i = row_act tbl (S i).
+Proof. unfold row_act. destruct tbl as [|p tbl]; [destruct i; reflexivity|reflexivity]. Qed.
+
+Lemma nth_error_tl {A} (l : list A) i : nth_error (tl l) i = nth_error l (S i).
+Proof. destruct l; [destruct i; reflexivity|reflexivity]. Qed.
+
+(* the two versions agree in the opaque components whose row asserts equality (merge_from_client /
+   merge_eq); rows `client.f` / `server.f` ask for nothing *)
+Definition rest_agree (tbl : table) (c s : list N) : Prop :=
+  forall i x y, nth_error c i = Some x -> nth_error s i = Some y ->
+    row_act tbl i = AAssertEq \/ row_act tbl i = ABailEq -> x = y.
+
+Lemma rest_agree_refl tbl c : rest_agree tbl c c.
+Proof. intros i x y Hx Hy _. congruence. Qed.
+
+Definition scalar_table (tbl : table) : bool := forallb (fun p => scalar_act (snd p)) tbl.
+
+Lemma merge_rest_ok tbl c s : scalar_table tbl = true -> rest_agree tbl c s -> exists r, merge_rest tbl c s = OK r.
+Proof.
+  revert tbl s. induction c as [|x c IH]; intros tbl s Sc Ag; cbn [merge_rest]; [eexists; reflexivity|].
+  set (a := match tbl with (_, a) :: _ => a | [] => AClient end).
+  set (y0 := match s with y :: _ => y | [] => x end).
+  assert (Ea : row_act tbl 0 = a) by (unfold row_act, a; destruct tbl as [|[f a'] tbl]; reflexivity).
+  assert (Hsc : scalar_act a = true).
+  { unfold a. destruct tbl as [|[f a'] tbl]; [reflexivity|]. cbn [scalar_table forallb snd] in Sc. apply andb_true_iff in Sc. exact (proj1 Sc). }
+  assert (Hv : exists v, apply_scalar a x y0 = OK v).
+  { assert (Hxy : a = AAssertEq \/ a = ABailEq -> x = y0).
+    { intros Hor. unfold y0. destruct s as [|y s]; [reflexivity|]. apply (Ag 0%nat x y eq_refl eq_refl). rewrite Ea. exact Hor. }
+    unfold apply_scalar, from_client, merge_eq. destruct a; try discriminate Hsc; try (eexists; reflexivity).
+    - rewrite <- (Hxy (or_introl eq_refl)), N.eqb_refl. eexists; reflexivity.
+    - rewrite <- (Hxy (or_intror eq_refl)), N.eqb_refl. eexists; reflexivity. }
+  destruct Hv as (v & ->). cbn [obind].
+  destruct (IH (tl tbl) (tl s)) as (r & ->).
+  - destruct tbl as [|p tbl]; [reflexivity|]. cbn [tl scalar_table forallb] in *. apply andb_true_iff in Sc. exact (proj2 Sc).
+  - intros i x' y' Hx Hy Hor. rewrite row_act_tl in Hor. rewrite nth_error_tl in Hy. exact (Ag (S i) x' y' Hx Hy Hor).
+  - cbn [obind]. eexists; reflexivity.
+Qed.
+
+(* the `inner` closure: what it returns, for any table of the opaque components *)
+Lemma merge_member_inv tbl c s m : merge_member tbl c s = OK m ->
+  exists rest, merge_rest tbl (m_rest c) (m_rest s) = OK rest /\
+    m = mkMember (m_name c) (m_desc c) (m_access c) (m_depr c) (m_synth c) (m_inv c) rest /\
+    m_depr c = m_depr s /\ m_synth c = m_synth s.
+Proof.
+  unfold merge_member, merge_eq, from_client. destruct c as [n d a dp sy inv rest], s as [n' d' a' dp' sy' inv' rest']. cbn [m_name m_desc m_access m_depr m_synth m_inv m_rest].
   destruct (str_eqb n n'); cbn [obind]; [|discriminate].
   destruct (str_eqb d d'); cbn [obind]; [|discriminate].
   destruct (Bool.eqb dp dp') eqn:E1; cbn [obind]; [|discriminate].
   destruct (Bool.eqb sy sy') eqn:E2; cbn [obind]; [|discriminate].
-  intros [= <-]. apply eqb_prop in E1, E2. auto.
+  destruct (merge_rest tbl rest rest') as [r| |] eqn:R; cbn [obind]; try discriminate.
+  intros [= <-]. apply eqb_prop in E1, E2. exists r. auto.
+Qed.
+
+Lemma merge_member_client tbl c s m : all_client tbl = true ->
+  merge_member tbl c s = OK m -> m = c /\ m_depr c = m_depr s /\ m_synth c = m_synth s.
+Proof.
+  intros AC H. destruct (merge_member_inv tbl c s m H) as (rest & R & -> & Hd & Hs).
+  rewrite (merge_rest_all_client tbl _ _ AC) in R. injection R as <-. destruct c; auto.
 Qed.
 
 (* what one merged member is, given the key it stands for *)
@@ -158,8 +226,11 @@ Lemma member_eqb_eq a b : member_eqb a b = true -> a = b.
 Proof.
   unfold member_eqb. destruct a as [n d ac dp sy inv rest], b as [n' d' ac' dp' sy' inv' rest']. cbn.
   rewrite !andb_true_iff. intros ((((((H1 & H2) & H3) & H4) & H5) & H6) & H7).
-  apply str_eqb_eq in H1, H2. apply N.eqb_eq in H3, H7. apply eqb_prop in H4, H5. subst.
-  f_equal. clear -H6. revert inv' H6. induction inv as [|x inv IH]; intros [|y inv']; cbn [leqb]; try discriminate; [reflexivity|].
+  apply str_eqb_eq in H1, H2. apply N.eqb_eq in H3. apply eqb_prop in H4, H5. subst.
+  assert (H7' : rest = rest').
+  { clear -H7. revert rest' H7. induction rest as [|x rest IH]; intros [|y rest']; cbn [leqb]; try discriminate; [reflexivity|].
+    rewrite andb_true_iff. intros (Hxy & H). apply N.eqb_eq in Hxy. subst. f_equal. apply IH, H. }
+  subst rest'. f_equal. clear -H6. revert inv' H6. induction inv as [|x inv IH]; intros [|y inv']; cbn [leqb]; try discriminate; [reflexivity|].
   rewrite andb_true_iff. intros (Hxy & H). f_equal; [|apply IH, H].
   clear -Hxy. destruct x as [s|l|i], y as [s'|l'|i']; cbn in Hxy; try discriminate.
   - destruct s, s'; cbn in Hxy; try discriminate; reflexivity.
@@ -169,16 +240,16 @@ Proof.
   - apply N.eqb_eq in Hxy. subst. reflexivity.
 Qed.
 
-Lemma merge_members_spec cf sf ms :
-  merge_members cf sf = OK ms ->
+Lemma merge_members_spec tbl cf sf ms : all_client tbl = true ->
+  merge_members tbl cf sf = OK ms ->
   Forall2 (member_spec cf sf) (mpo key_eqb (map mkey cf) (map mkey sf)) ms.
 Proof.
-  unfold merge_members, merge_slice. intros H. apply collect_spec in H.
+  unfold merge_members, merge_slice. intros AC H. apply collect_spec in H.
   revert H. apply Forall2_impl'. intros k m _. unfold member_spec.
   destruct (find_last key_eqb mkey k cf) as [ec|], (find_last key_eqb mkey k sf) as [es|]; try discriminate.
   - destruct (member_eqb ec es) eqn:Eq.
     + intros [= <-]. split; [reflexivity|left; apply member_eqb_eq, Eq].
-    + intros H. destruct (merge_member_client ec es m H) as (-> & Hd & Hs). split; [reflexivity|right; auto].
+    + intros H. destruct (merge_member_client tbl ec es m AC H) as (-> & Hd & Hs). split; [reflexivity|right; auto].
   - intros [= <-]. reflexivity.
   - intros [= <-]. reflexivity.
 Qed.
@@ -192,8 +263,8 @@ Proof.
   - intros ->. rewrite mark_member_key. exact (proj2 (find_last_Some key_eqb key_eqb_ok mkey k sf es Fs)).
 Qed.
 
-Theorem members_marked cf sf ms :
-  NoDup (map mkey cf) -> NoDup (map mkey sf) -> merge_members cf sf = OK ms ->
+Theorem members_marked tbl cf sf ms : all_client tbl = true ->
+  NoDup (map mkey cf) -> NoDup (map mkey sf) -> merge_members tbl cf sf = OK ms ->
   let kc := map mkey cf in let ks := map mkey sf in let km := map mkey ms in
   (* every key of either side exactly once *)
   NoDup km /\ Permutation km (kc ++ minus key_eqb ks kc) /\
@@ -209,8 +280,8 @@ Theorem members_marked cf sf ms :
      (exists es, In es sf /\ ~ In (mkey es) kc /\ m = mark_member es Server) \/
      (exists ec es, In ec cf /\ In es sf /\ mkey ec = mkey es /\ m = ec)).
 Proof.
-  intros Nc Ns H kc ks km.
-  pose proof (merge_members_spec cf sf ms H) as F.
+  intros AC Nc Ns H kc ks km.
+  pose proof (merge_members_spec tbl cf sf ms AC H) as F.
   assert (Hk : km = mpo key_eqb kc ks).
   { apply Forall2_map_eq. revert F. apply Forall2_impl'. intros k m _. apply member_spec_key. }
   pose proof (mpo_res_mpo key_eqb key_eqb_ok kc ks) as R. rewrite <- Hk in R.
@@ -259,10 +330,14 @@ Qed.
 Definition flags_agree (cf sf : list member) : Prop :=
   forall ec es, In ec cf -> In es sf -> mkey ec = mkey es -> m_depr ec = m_depr es /\ m_synth ec = m_synth es.
 
-Theorem merge_members_ok cf sf :
-  flags_agree cf sf -> exists ms, merge_members cf sf = OK ms.
+(* … and, where a row of the `inner` literal asserts equality, in that opaque component *)
+Definition rests_agree (tbl : table) (cf sf : list member) : Prop :=
+  forall ec es, In ec cf -> In es sf -> mkey ec = mkey es -> rest_agree tbl (m_rest ec) (m_rest es).
+
+Theorem merge_members_ok tbl cf sf : scalar_table tbl = true ->
+  flags_agree cf sf -> rests_agree tbl cf sf -> exists ms, merge_members tbl cf sf = OK ms.
 Proof.
-  intros FA. unfold merge_members, merge_slice. apply collect_ok. intros k Hk.
+  intros AC FA RA. unfold merge_members, merge_slice. apply collect_ok. intros k Hk.
   pose proof (mpo_res_mpo key_eqb key_eqb_ok (map mkey cf) (map mkey sf)) as R.
   assert (Hin : In k (map mkey cf) \/ In k (map mkey sf)).
   { pose proof (mpo_perm key_eqb key_eqb_ok _ _ _ R) as P. apply (Permutation_in _ P) in Hk.
@@ -274,7 +349,8 @@ Proof.
     assert (Kk : mkey ec = mkey es) by congruence.
     destruct (FA ec es Hec Hes Kk) as (Hd & Hs).
     unfold merge_member, merge_eq, from_client. injection Kk as Kn Kd. rewrite Kn, Kd, Hd, Hs.
-    rewrite !str_eqb_refl, !eqb_reflx. cbn [obind]. eexists; reflexivity.
+    rewrite !str_eqb_refl, !eqb_reflx. cbn [obind].
+    destruct (merge_rest_ok tbl _ _ AC (RA ec es Hec Hes (f_equal2 pair Kn Kd))) as (r & ->). cbn [obind]. eexists; reflexivity.
   - eexists; reflexivity.
   - eexists; reflexivity.
   - exfalso. apply (find_last_None key_eqb key_eqb_ok) in Fc, Fs. tauto.
@@ -315,14 +391,22 @@ Proof.
   - intros [sd i] H1 H2. apply in_map_iff in H1, H2. destruct H1 as (? & E1 & _), H2 as (? & E2 & _). rewrite <- E2 in E1. discriminate E1.
 Qed.
 
+(* Which side an opaque field (a signature, a method body, the source file …) is taken from is not
+   part of the property: the theorems below hold for whatever the regenerated tables say; where a
+   statement is about "the client's version" it carries [all_client tbl = true] as a hypothesis
+   (today's tables satisfy it: the struct literal says `client.f` for each of these fields, the
+   `inner` literals end in `..client.clone()`; see C13/MergeGen.v). *)
+Definition tables_all_client : Prop :=
+  all_client class_rest_table = true /\ all_client field_rest_table = true /\ all_client method_rest_table = true.
+
 Record class_merge_facts (c s m : aclass) : Prop := {
   cm_version : c_version m = c_version c /\ c_version c = c_version s;
   cm_access : c_access m = c_access c /\ c_access c = c_access s;
   cm_name : c_name m = c_name c /\ c_name c = c_name s;
   cm_super : c_super m = c_super c;
   cm_itfs : mpo_res str_eqb (c_itfs c) (c_itfs s) = Ok (c_itfs m);
-  cm_fields : merge_members (c_fields c) (c_fields s) = OK (c_fields m);
-  cm_methods : merge_members (c_methods c) (c_methods s) = OK (c_methods m);
+  cm_fields : merge_members field_rest_table (c_fields c) (c_fields s) = OK (c_fields m);
+  cm_methods : merge_members method_rest_table (c_methods c) (c_methods s) = OK (c_methods m);
   cm_vis : c_vis m = c_vis c;          (* no class-level side mark on a class both sides have *)
   cm_inv : c_inv m = c_inv c ++
              match itf_marks (c_itfs m) (c_itfs c) (c_itfs s) with [] => [] | marks => [AItfs marks] end;
@@ -333,7 +417,7 @@ Record class_merge_facts (c s m : aclass) : Prop := {
                          mpo_res str_eqb (unwrap_or_default pc) (unwrap_or_default ps) = Ok l
             end;
   cm_rec : c_rec m = c_rec c;          (* record components: the client's *)
-  cm_rest : c_rest m = c_rest c        (* everything else: the client's *)
+  cm_rest_tbl : merge_rest class_rest_table (c_rest c) (c_rest s) = OK (c_rest m)   (* everything else: row by row *)
 }.
 
 Theorem class_merge_spec c s m : class_merge c s = OK m -> class_merge_facts c s m.
@@ -343,17 +427,25 @@ Proof.
   destruct (N.eqb (c_access c) (c_access s)) eqn:E2; cbn [obind] in H; [|discriminate].
   destruct (str_eqb (c_name c) (c_name s)) eqn:E3; cbn [obind] in H; [|discriminate].
   destruct (oeqb str_eqb (c_super c) (c_super s)) eqn:E4; cbn [obind] in H; [|discriminate].
-  destruct (merge_members (c_fields c) (c_fields s)) as [fs| |] eqn:E5; cbn [obind] in H; try discriminate.
-  destruct (merge_members (c_methods c) (c_methods s)) as [ms| |] eqn:E6; cbn [obind] in H; try discriminate.
+  destruct (merge_members field_rest_table (c_fields c) (c_fields s)) as [fs| |] eqn:E5; cbn [obind] in H; try discriminate.
+  destruct (merge_members method_rest_table (c_methods c) (c_methods s)) as [ms| |] eqn:E6; cbn [obind] in H; try discriminate.
   destruct (Bool.eqb (c_depr c) (c_depr s)) eqn:E7; cbn [obind] in H; [|discriminate].
   destruct (Bool.eqb (c_synth c) (c_synth s)) eqn:E8; cbn [obind] in H; [|discriminate].
   destruct (merge_inner _ _) as [inn| |] eqn:E9; cbn [obind] in H; try discriminate.
+  destruct (merge_rest class_rest_table (c_rest c) (c_rest s)) as [rest| |] eqn:E10; cbn [obind] in H; try discriminate.
   injection H as <-. apply N.eqb_eq in E1, E2. apply str_eqb_eq in E3.
   constructor; cbn [c_version c_access c_name c_super c_itfs c_fields c_methods c_vis c_inv c_perm c_rec c_rest]; auto.
   - apply (mpo_res_mpo str_eqb str_eqb_ok).
   - destruct (itf_marks _ _ _); [symmetry; apply app_nil_r|reflexivity].
   - unfold merge_perm. destruct (c_perm c) as [pc|], (c_perm s) as [ps|]; try reflexivity;
       (eexists; split; [reflexivity|apply (mpo_res_mpo str_eqb str_eqb_ok)]).
+Qed.
+
+(* when the table says `client.f` for every opaque field (today's does), they are the client's *)
+Lemma class_rest_client c s m : all_client class_rest_table = true -> class_merge c s = OK m -> c_rest m = c_rest c.
+Proof.
+  intros AC H. pose proof (cm_rest_tbl _ _ _ (class_merge_spec c s m H)) as R.
+  rewrite (merge_rest_all_client _ _ _ AC) in R. injection R as <-. reflexivity.
 Qed.
 
 (* the record spelled out (Props/C13.v pins this form) *)
@@ -363,8 +455,8 @@ Definition class_merge_facts_spelled (c s m : aclass) : Prop :=
   (c_name m = c_name c /\ c_name c = c_name s) /\
   c_super m = c_super c /\
   mpo_res str_eqb (c_itfs c) (c_itfs s) = Ok (c_itfs m) /\
-  merge_members (c_fields c) (c_fields s) = OK (c_fields m) /\
-  merge_members (c_methods c) (c_methods s) = OK (c_methods m) /\
+  merge_members field_rest_table (c_fields c) (c_fields s) = OK (c_fields m) /\
+  merge_members method_rest_table (c_methods c) (c_methods s) = OK (c_methods m) /\
   c_vis m = c_vis c /\
   c_inv m = c_inv c ++ match itf_marks (c_itfs m) (c_itfs c) (c_itfs s) with [] => [] | marks => [AItfs marks] end /\
   match c_perm c, c_perm s with
@@ -372,7 +464,7 @@ Definition class_merge_facts_spelled (c s m : aclass) : Prop :=
   | pc, ps => exists l, c_perm m = Some l /\ mpo_res str_eqb (unwrap_or_default pc) (unwrap_or_default ps) = Ok l
   end /\
   c_rec m = c_rec c /\
-  c_rest m = c_rest c.
+  merge_rest class_rest_table (c_rest c) (c_rest s) = OK (c_rest m).
 
 Lemma class_merge_facts_unfold c s m : class_merge_facts c s m <-> class_merge_facts_spelled c s m.
 Proof.
@@ -436,19 +528,30 @@ Definition classes_agree (c s : aclass) : Prop :=
   c_version c = c_version s /\ c_access c = c_access s /\ c_name c = c_name s /\ c_super c = c_super s /\
   c_depr c = c_depr s /\ c_synth c = c_synth s /\
   flags_agree (c_fields c) (c_fields s) /\ flags_agree (c_methods c) (c_methods s) /\
-  inner_agree (unwrap_or_default (c_inner c)) (unwrap_or_default (c_inner s)).
+  inner_agree (unwrap_or_default (c_inner c)) (unwrap_or_default (c_inner s)) /\
+  (* opaque components whose row asserts equality (none today) *)
+  rests_agree field_rest_table (c_fields c) (c_fields s) /\ rests_agree method_rest_table (c_methods c) (c_methods s) /\
+  rest_agree class_rest_table (c_rest c) (c_rest s).
+
+(* the regenerated tables have only scalar rows outside the fields the model spells out: the
+   translator recognises the composite forms only at those fields *)
+Lemma rest_tables_scalar :
+  scalar_table class_rest_table = true /\ scalar_table field_rest_table = true /\ scalar_table method_rest_table = true.
+Proof. repeat split; vm_compute; reflexivity. Qed.
 
 Lemma oeqb_str_refl (o : option str) : oeqb str_eqb o o = true.
 Proof. destruct o; cbn; [apply str_eqb_refl|reflexivity]. Qed.
 
 Theorem class_merge_ok c s : classes_agree c s -> exists m, class_merge c s = OK m.
 Proof.
-  intros (H1 & H2 & H3 & H4 & H5 & H6 & H7 & H8 & H9).
+  intros (H1 & H2 & H3 & H4 & H5 & H6 & H7 & H8 & H9 & H10 & H11 & H12).
+  destruct rest_tables_scalar as (Sc & Sf & Sm).
   unfold class_merge, from_client, merge_eq. rewrite <- H1, <- H2, <- H3, <- H4, <- H5, <- H6.
   rewrite !N.eqb_refl, str_eqb_refl, oeqb_str_refl, !eqb_reflx. cbn [obind].
-  destruct (merge_members_ok _ _ H7) as (fs & ->). cbn [obind].
-  destruct (merge_members_ok _ _ H8) as (ms & ->). cbn [obind].
+  destruct (merge_members_ok _ _ _ Sf H7 H10) as (fs & ->). cbn [obind].
+  destruct (merge_members_ok _ _ _ Sm H8 H11) as (ms & ->). cbn [obind].
   destruct (merge_inner_ok _ _ H9) as (inn & ->). cbn [obind].
+  destruct (merge_rest_ok _ _ _ Sc H12) as (rest & ->). cbn [obind].
   eexists; reflexivity.
 Qed.
 
@@ -819,42 +922,47 @@ Proof. unfold both_sides. intros -> ->. intros [= <-]. reflexivity. Qed.
 (* ---------------------------------------------------------------------------------------- *)
 (** * Non-vacuity: concrete values inside the hypotheses, run through the model *)
 
-Definition ex_member (n : N) (rest : N) : member := mkMember [102; n] [73] 1 false false [] rest.
+(* both versions of an example carry the same opaque components, so that the examples do not depend on
+   which side the regenerated tables take them from; the versions of a shared member differ in access *)
+Definition ex_member (n : N) (access : N) : member := mkMember [102; n] [73] access false false [] [7; 0; 0; 0; 0; 0].
 Definition ex_class (itfs : list str) (fields : list member) (rest : N) : aclass :=
-  mkClass 52 33 [65] (Some [79]) itfs fields [] false false None [] [] None 0 rest.
+  mkClass 52 33 [65] (Some [79]) itfs fields [] false false None [] [] None 0 [0; 0; rest; 0; 0; 0; 0; 0; 0; 0; 0; 0].
 (* client: A.class (differs from the server's), B.class (same bytes), a resource, a signature file;
    server: A.class, B.class, a bundled library class, a manifest *)
 Definition ex_client : jar :=
-  [ mkEntry (s_minecraft ++ [65] ++ s_class) 1 (Class RVec 1 (Some (ex_class [[73;49];[73;50];[73;51]] [ex_member 49 7; ex_member 50 7] 1)));
+  [ mkEntry (s_minecraft ++ [65] ++ s_class) 1 (Class RVec 1 (Some (ex_class [[73;49];[73;50];[73;51]] [ex_member 49 1; ex_member 50 1] 1)));
     mkEntry (s_minecraft ++ [66] ++ s_class) 2 (Class RVec 2 (Some (ex_class [] [] 2)));
     mkEntry [112] 3 (Other [1;2]);
     mkEntry (s_metainf ++ [88] ++ s_SF) 4 (Other [9]) ].
 Definition ex_server : jar :=
   [ mkEntry (s_minecraft ++ [66] ++ s_class) 5 (Class RVec 2 (Some (ex_class [] [] 2)));
-    mkEntry (s_minecraft ++ [65] ++ s_class) 6 (Class RVec 3 (Some (ex_class [[73;49];[73;57];[73;50];[73;51]] [ex_member 50 8; ex_member 51 7] 1)));
+    mkEntry (s_minecraft ++ [65] ++ s_class) 6 (Class RVec 3 (Some (ex_class [[73;49];[73;57];[73;50];[73;51]] [ex_member 50 17; ex_member 51 1] 1)));
     mkEntry ([99;47;76] ++ s_class) 7 (Class RVec 4 (Some (ex_class [] [] 3)));
     mkEntry s_manifest 8 (Other [0]) ].
 Definition ex_merged : list oentry :=
   [ mkOEntry (s_minecraft ++ [65] ++ s_class) 1
       (OParsed (mkClass 52 33 [65] (Some [79]) [[73;49];[73;57];[73;50];[73;51]]
-         [ mkMember [102;49] [73] 1 false false [AEnv Client] 7; ex_member 50 7; mkMember [102;51] [73] 1 false false [AEnv Server] 7 ]
-         [] false false None [] [AItfs [(Server, [73;57])]] None 0 1));
+         [ mkMember [102;49] [73] 1 false false [AEnv Client] [7;0;0;0;0;0]; ex_member 50 1; mkMember [102;51] [73] 1 false false [AEnv Server] [7;0;0;0;0;0] ]
+         [] false false None [] [AItfs [(Server, [73;57])]] None 0 [0;0;1;0;0;0;0;0;0;0;0;0]));
     mkOEntry (s_minecraft ++ [66] ++ s_class) 2 (OVec 2);
     mkOEntry [112] 3 (OOther [1;2]);
     mkOEntry s_manifest 8 (OOther manifest_bytes) ].
 
 (* a sealed record class whose two versions permit [P] resp. [Q; P] and carry record components 5 resp. 6 *)
 Definition ex_sealed (perm : option (list str)) (rec rest : N) : aclass :=
-  mkClass 61 33 [65] (Some [79]) [] [] [] false false None [] [] perm rec rest.
+  mkClass 61 33 [65] (Some [79]) [] [] [] false false None [] [] perm rec [0; 0; rest; 0; 0; 0; 0; 0; 0; 0; 0; 0].
 
 Definition nonvacuous : Prop :=
   (* record components and permitted subclasses of a class both sides have are kept *)
-  class_merge (ex_sealed (Some [[80]]) 5 1) (ex_sealed (Some [[81];[80]]) 6 2) = OK (ex_sealed (Some [[81];[80]]) 5 1) /\
-  class_merge (ex_sealed None 5 1) (ex_sealed None 5 2) = OK (ex_sealed None 5 1) /\
+  class_merge (ex_sealed (Some [[80]]) 5 1) (ex_sealed (Some [[81];[80]]) 6 1) = OK (ex_sealed (Some [[81];[80]]) 5 1) /\
+  class_merge (ex_sealed None 5 1) (ex_sealed None 5 1) = OK (ex_sealed None 5 1) /\
   (* the witness of the repaired defect: b-only elements are interleaved *)
   mpo_res N.eqb [1;2;3] [1;9;2;3] = Ok [1;9;2;3] /\ compatible N.eqb [1;2;3] [1;9;2;3] /\
   (* without compatibility the second order cannot be kept *)
   mpo_res N.eqb [1;2] [2;1] = Ok [1;2] /\ ~ compatible N.eqb [1;2] [2;1] /\ ~ subseq [2;1] [1;2] /\
+  (* the hypotheses about opaque components are satisfiable whatever the tables say: two versions
+     that carry the same opaque components agree (the example classes above do) *)
+  (forall tbl c, rest_agree tbl c c) /\
   (* a jar pair inside the hypotheses of entries_once, with every kind of row *)
   NoDup (names ex_client) /\ NoDup (names ex_server) /\ merge_jar ex_client ex_server = OK ex_merged.
 
@@ -873,6 +981,7 @@ Proof.
   split; [unfold compatible; vm_compute; discriminate|].
   split.
   { intros H. repeat match goal with H : subseq _ _ |- _ => inversion H; clear H; subst end. }
+  split; [exact rest_agree_refl|].
   split; [apply NoDup_str_dec; vm_compute; reflexivity|].
   split; [apply NoDup_str_dec; vm_compute; reflexivity|].
   vm_compute. reflexivity.
